@@ -54,7 +54,8 @@ def expected_groups(user):
 
 
 class Identity:
-    def __init__(self, world, user, exe_name, argv_tail):
+    def __init__(self, world, user, exe_name, argv_tail, exec_capable=False):
+        self.world = world
         self.user = user
         ent = [u for u in USERS if u[0] == user][0]
         self.uid, self.gid = ent[1], ent[2]
@@ -67,10 +68,35 @@ class Identity:
         os.chmod(self.exe, 0o755)
         self.argv = [self.exe] + list(argv_tail)
         self.proc = subprocess.Popen(self.argv, executable=self.exe, user=self.uid, group=self.gid, extra_groups=[],
-                                     stdin=subprocess.DEVNULL, stdout=subprocess.DEVNULL, stderr=subprocess.DEVNULL)
+                                     stdin=subprocess.PIPE if exec_capable else subprocess.DEVNULL, stdout=subprocess.DEVNULL, stderr=subprocess.DEVNULL)
         self.pid = self.proc.pid
         self.elevated = self.uid == 0
         self.cmdline = " ".join(self.argv)
+        self.generation = 0
+
+    def exec_to(self, exe_name, argv_tail=()):
+        """the process becomes another program (execve in the same pid): new executable path, name and command line, same pid/uid"""
+        self.generation += 1
+        d = os.path.join(os.path.dirname(os.path.dirname(self.exe)), "%s-g%d-%d" % (os.path.basename(os.path.dirname(self.exe)), self.generation, self.pid))
+        os.makedirs(d, exist_ok=True)
+        os.chmod(d, 0o755)
+        new_exe = os.path.join(d, exe_name)
+        shutil.copy(HELPER_BIN, new_exe)
+        os.chmod(new_exe, 0o755)
+        argv = [new_exe] + list(argv_tail)
+        self.proc.stdin.write(("exec " + "\x1f".join(argv) + "\n").encode())
+        self.proc.stdin.flush()
+        t0 = time.time()
+        while time.time() - t0 < 5:
+            try:
+                if os.readlink("/proc/%d/exe" % self.pid) == new_exe:
+                    break
+            except OSError:
+                pass
+            time.sleep(0.005)
+        else:
+            raise common.Inconclusive("helper did not exec into %s" % new_exe)
+        self.exe_name, self.exe, self.argv, self.cmdline = exe_name, new_exe, argv, " ".join(argv)
 
     def claims(self):
         """what the agent should derive for this process (used by reference oracles)"""
@@ -115,8 +141,8 @@ class World:
                 time.sleep(0.02)
         raise common.Inconclusive("proxy listener did not come up")
 
-    def identity(self, user="root", exe_name="helper", argv_tail=()):
-        i = Identity(self, user, exe_name, argv_tail)
+    def identity(self, user="root", exe_name="helper", argv_tail=(), exec_capable=False):
+        i = Identity(self, user, exe_name, argv_tail, exec_capable)
         self.identities.append(i)
         return i
 
